@@ -11,3 +11,6 @@ import CantoVerif.Proofs.CoinswapArith
 import CantoVerif.Proofs.CoinswapEffects
 import CantoVerif.Proofs.CoinswapWF
 import CantoVerif.Props.C01
+import CantoVerif.Props.C02
+import CantoVerif.Props.C08
+import CantoVerif.Props.C09
